@@ -297,7 +297,15 @@ def check_lifecycle(h, f=None):
                     'never returned' % o['op']['op']))
             ev = [e for e in f.app.events
                   if o['seq_start'] <= e['seq'] <= (o['seq_end'] or 0)]
-            if ev and o['seq_end'] is not None:
+            # (events that another call fired meanwhile - a connect() that
+            # was under way in another thread - are not this call's)
+            overlap = any(
+                o2 is not o and o2['op']['op'] == 'connect' and
+                o2['seq_start'] is not None and
+                o2['seq_start'] <= (o['seq_end'] or 0) and
+                (o2['seq_end'] is None or o2['seq_end'] >= o['seq_start'])
+                for o2 in f.app.ops)
+            if ev and o['seq_end'] is not None and not overlap:
                 out.append(V('idle-calls-harmless', '%s|idle-%s-fired-%s' % (
                     kind, o['op']['op'], ev[0]['ev']),
                     '%s() on a disconnected client fired %s' % (
